@@ -63,9 +63,9 @@ impl Prop for Accessors {
 
 #[derive(Clone, Serialize, Deserialize)]
 pub struct NoAddr {
-    pub ty: Ty,
+    /// (type, has an address)
+    pub vals: Vec<(Ty, bool)>,
     pub w: u64,
-    pub with_addr: bool,
 }
 pub struct MissingAddress;
 impl Prop for MissingAddress {
@@ -74,44 +74,73 @@ impl Prop for MissingAddress {
         "C15/missing-address".into()
     }
     fn rule(&self) -> String {
-        "`extern name: T` without #[address] over scalar, pointer and array T must be an error; the same declaration with an address is the accepted control".into()
+        "a module with 1-4 extern values over scalar, pointer and array types, each with or without #[address] (distinct addresses), in any order. Oracle: Err iff at least one has no address; with all addresses present the build is Ok and each accessor's body mentions its own address and no other. Non-trivial: >=2 extern values".into()
     }
     fn gen(&self, t: &mut Tape) -> NoAddr {
-        let base = Ty::n(*t.pick(&["u8", "u32", "u64", "f32", "i16"]));
-        let ty = match t.below(3) {
-            0 => base,
-            1 => base.mptr(),
-            _ => base.arr(1 + t.below(5)),
-        };
+        let n = 1 + t.below(4);
+        let mut vals = vec![];
+        for _ in 0..n {
+            let base = Ty::n(*t.pick(&["u8", "u32", "u64", "f32", "i16"]));
+            let ty = match t.below(3) {
+                0 => base,
+                1 => base.mptr(),
+                _ => base.arr(1 + t.below(5)),
+            };
+            vals.push((ty, t.chance(2, 3)));
+        }
         NoAddr {
-            ty,
+            vals,
             w: if t.chance(1, 2) { 8 } else { 4 },
-            with_addr: t.chance(1, 3),
         }
     }
     fn judge(&self, c: &NoAddr) -> Outcome {
+        let addr_of = |k: usize| 0x1230u64 + 0x1000 * k as u64;
         let prog = Prog {
             mods: vec![Mod {
                 path: vec!["m".into()],
-                ext_vals: vec![ExtVal {
-                    vis: true,
-                    name: "g".into(),
-                    ty: c.ty.clone(),
-                    addr: if c.with_addr { Some(Num::d(0x1234)) } else { None },
-                    doc: vec![],
-                }],
+                ext_vals: c
+                    .vals
+                    .iter()
+                    .enumerate()
+                    .map(|(k, (ty, has))| ExtVal {
+                        vis: true,
+                        name: format!("g{k}"),
+                        ty: ty.clone(),
+                        addr: if *has { Some(Num::d(addr_of(k) as i128)) } else { None },
+                        doc: vec![],
+                    })
+                    .collect(),
                 ..Default::default()
             }],
         };
-        match (build_prog(&prog, c.w as usize), c.with_addr) {
+        let all = c.vals.iter().all(|(_, h)| *h);
+        let nt = c.vals.len() >= 2;
+        match (build_prog(&prog, c.w as usize), all) {
             (Res::Panic(p), _) => Outcome::fail("panic", p),
-            (Res::Ok(_), true) | (Res::Err(_), false) => Outcome::pass(true).class(if c.with_addr { "control" } else { "rejected" }),
-            (Res::Ok(_), false) => Outcome::fail("accepted-without-address", "extern value without #[address] was accepted".into()),
+            (Res::Err(_), false) => Outcome::pass(nt).class("rejected"),
+            (Res::Ok(_), false) => Outcome::fail("accepted-without-address", format!("{} extern values, addresses present: {:?}: accepted", c.vals.len(), c.vals.iter().map(|v| v.1).collect::<Vec<_>>())),
             (Res::Err(e), true) => Outcome::fail("control-rejected", e),
+            (Res::Ok(b), true) => {
+                let v = match crate::rsview::view(&b.files["m.rs"]) {
+                    Ok(v) => v,
+                    Err(e) => return Outcome::fail("unparsable", e),
+                };
+                for k in 0..c.vals.len() {
+                    let Some(f) = v.free_fns.iter().find(|f| f.name == format!("get_g{k}")) else {
+                        return Outcome::fail("accessor-missing", format!("get_g{k}"));
+                    };
+                    // (array lengths are integer literals of the body too)
+                    let others: Vec<u128> = (0..c.vals.len()).filter(|j| *j != k).map(|j| addr_of(j) as u128).collect();
+                    if !f.body_ints.contains(&(addr_of(k) as u128)) || f.body_ints.iter().any(|x| others.contains(x)) {
+                        return Outcome::fail("wrong-address", format!("get_g{k}: integer literals in the body {:x?}, expected its own address {:x} and no other accessor's", f.body_ints, addr_of(k)));
+                    }
+                }
+                Outcome::pass(nt).class("control")
+            }
         }
     }
     fn show(&self, c: &NoAddr) -> Value {
-        json!({"ty": c.ty.print(), "width": c.w, "with_address": c.with_addr})
+        json!({"vals": c.vals.iter().map(|(t, h)| format!("{}{}", t.print(), if *h { " @addr" } else { " (no address)" })).collect::<Vec<_>>(), "width": c.w})
     }
 }
 
@@ -121,6 +150,6 @@ pub fn props() -> Vec<Box<dyn DynProp>> {
 
 pub fn run(ctx: &mut Ctx) {
     let q = ctx.quick();
-    ctx.run(&MissingAddress, &Params::new(if q { 300 } else { 3000 }, 4, 10));
-    ctx.run(&Accessors, &Params::new(if q { 300 } else { 10_000 }, 200, 2500).shrink(60));
+    ctx.run(&MissingAddress, &Params::new(if q { 3000 } else { 60_000 }, 6, 24));
+    ctx.run(&Accessors, &Params::new(if q { 1500 } else { 50_000 }, 200, 2500).shrink(60));
 }
